@@ -103,7 +103,54 @@ func VerifC10_Gate() {
 	sym.Assert(sym.Iff(ok, sum.Cmp(big.NewInt(2_863_311_530)) >= 0), "publishable-iff-two-thirds-of-max-power")
 }
 
+// VerifC10_ProjectionExact: for concrete stake vectors the float computation is
+// evaluated exactly (by the host in the engine, by the CPU natively), so the
+// power must be exactly floor(2^32 * share / total) and the powers can never
+// sum to more than 2^32. Complements VerifC10_Projection, whose symbolic float
+// model only decides "within 1".
+func VerifC10_ProjectionExact() {
+	vectors := [][]int64{
+		{1000, 1000, 1000, 1000, 1000, 1000, 1000}, // 2^32 mod 7 = 4: every fraction is 4/7
+		{2000, 1000},                               // fractions 2/3 and 1/3
+		{1, 2, 4},
+		{999_999_999_999, 1},
+		{5, 5, 5, 5, 5, 5},
+	}
+	shares := vectors[sym.Choice("stake-vector", len(vectors))]
+	snap := &valsettypes.Snapshot{Id: 9, TotalShares: sdkmath.ZeroInt()}
+	total := int64(0)
+	addrs := []string{models.EthAddrs[0], models.EthAddrs[1], models.EthAddrs[2], models.EthAddrs[3], models.EthAddrs[4], models.EthAddrs[5], "0x6666666666666666666666666666666666666666"}
+	for i, sh := range shares {
+		v := valsettypes.Validator{Address: sdk.ValAddress([]byte{byte('a' + i), 1, 2, 3, 4, 5, 6, 7, 8, 9, 10, 11, 12, 13, 14, 15, 16, 17, 18, 19}), ShareCount: sdkmath.NewInt(sh), State: valsettypes.ValidatorState_ACTIVE,
+			ExternalChainInfos: []*valsettypes.ExternalChainInfo{{ChainType: "evm", ChainReferenceID: "eth-main", Address: addrs[i]}}}
+		snap.Validators = append(snap.Validators, v)
+		snap.TotalShares = snap.TotalShares.Add(sdkmath.NewInt(sh))
+		total += sh
+	}
+	vs := transformSnapshotToCompass(snap, "eth-main", log.NewNopLogger())
+	sym.Reach("projected-exactly")
+	sym.Assert(len(vs.Powers) == len(shares), "every-member-projected")
+	sum := new(big.Int)
+	for j := range vs.Powers {
+		idx := -1
+		for i := range shares {
+			if vs.Validators[j] == addrs[i] {
+				idx = i
+			}
+		}
+		if idx < 0 {
+			sym.Assert(false, "member-address-is-the-registered-account")
+			return
+		}
+		want := new(big.Int).Div(new(big.Int).Mul(new(big.Int).Lsh(big.NewInt(1), 32), big.NewInt(shares[idx])), big.NewInt(total))
+		sym.Assert(new(big.Int).SetUint64(vs.Powers[j]).Cmp(want) == 0, "power-is-the-scaled-stake-fraction-rounded-down")
+		sum.Add(sum, new(big.Int).SetUint64(vs.Powers[j]))
+	}
+	sym.Assert(sum.Cmp(new(big.Int).Lsh(big.NewInt(1), 32)) <= 0, "powers-never-exceed-the-maximum-in-total")
+}
+
 var VerifEntries = map[string]func(){
+	"VerifC10_ProjectionExact": VerifC10_ProjectionExact,
 	"VerifC10_Projection": VerifC10_Projection,
 	"VerifC10_Gate":       VerifC10_Gate,
 }
